@@ -1048,6 +1048,54 @@ impl Prop for C05 {
             case.kitty
         ));
 
+        // 1b. the mouse-reporting constructor: whatever was enabled, disabling leaves none of the
+        //     three modes set (and enabling selects SGR coordinates plus one tracking mode)
+        {
+            let (m1, m2) = (case.cmds.len() % 2 == 0, case.depth % 2 == 0);
+            let mut encoder = TTYEncoder::new(caps.clone());
+            let mut bytes = Vec::new();
+            let mut set: std::collections::BTreeSet<u32> = Default::default();
+            for (enable, motion) in [(true, m1), (false, m2)] {
+                bytes.clear();
+                for cmd in TerminalCommand::mouse_events_set(enable, motion) {
+                    encoder
+                        .encode(&mut bytes, cmd)
+                        .map_err(|e| Fail::new("mouse_events_set:encode-error", format!("{e}")))?;
+                }
+                let (ops, ground) = ctlseq::parse(&bytes);
+                ensure!(ground, "mouse_events_set:not-ground", "mouse_events_set({enable}, {motion}) emitted {:?}", describe(&bytes));
+                for op in ops {
+                    match op {
+                        Op::Decset(modes) => set.extend(modes),
+                        Op::Decrst(modes) => {
+                            for m in modes {
+                                set.remove(&m);
+                            }
+                        }
+                        other => fail!(
+                            "mouse_events_set:ops",
+                            "mouse_events_set({enable}, {motion}) emitted {other:?} ({:?})",
+                            describe(&bytes)
+                        ),
+                    }
+                }
+                if enable {
+                    let tracking = if motion { 1003 } else { 1000 };
+                    ensure!(
+                        set.contains(&1006) && set.contains(&tracking),
+                        "mouse_events_set:ops",
+                        "after mouse_events_set(true, {motion}) the modes set are {set:?}"
+                    );
+                }
+            }
+            ensure!(
+                set.is_empty(),
+                "mouse_events_set:ops",
+                "after mouse_events_set(true, {m1}) and mouse_events_set(false, {m2}) the modes {set:?} are still set"
+            );
+            ctx.feat("helper.mouse_events_set");
+        }
+
         // 2. the same commands back-to-back through one encoder into one buffer
         let mut encoder = TTYEncoder::new(caps);
         let mut stream = Vec::new();
